@@ -18,7 +18,7 @@ import (
 // finite abstraction; the sort permutes all parallel arrays; OFFSET ≺ LIMIT.
 
 func init() {
-	Register(&Rule{ID: "R-SRT-1", Props: []string{"C07"}, Floor: 1,
+	Register(&Rule{ID: "R-SRT-1", Props: []string{"C07", "C17"}, Floor: 1,
 		Doc: "SortValue.Less / EquivalentTo over all (type × type × per-field orderings × NaN flags × strict mode) worlds: the two directions are one of (TRUE,FALSE), (FALSE,TRUE) or (UNKNOWN,UNKNOWN) — a tie is symmetric and never reported as FALSE/FALSE (which would stop the comparison before the following sort keys) — and EquivalentTo(a,b) is symmetric and implies a tie",
 		Run: ruleSrt1})
 	Register(&Rule{ID: "R-SRT-2", Props: []string{"C07"}, Floor: 1,
